@@ -67,6 +67,68 @@ fn main() {
             println!("attempts {} result {:?}", tr.attempts, res.as_ref().map(|_| "ok").map_err(|u| u.signature()));
             0
         }
+        "model-agreement" => {
+            // model-agreement <n> <count>: is the reference model of the candidate stream in lock-step
+            // with the tree's key generation? (the accepted (f, g) must be candidate number `attempts`)
+            let n: usize = args.get(2).and_then(|s| s.parse().ok()).unwrap_or(512);
+            let count: u64 = args.get(3).and_then(|s| s.parse().ok()).unwrap_or(4);
+            let mut bad = 0;
+            for c in 0..count {
+                let seed = rng::counter_seed(1000 + c);
+                let (r, tr) = if n == 512 {
+                    let (r, tr) = world::keygen_sim::<variant::V512>(seed, None, None);
+                    (r.map(|(sk, _)| <variant::V512 as variant::Variant>::sk_to_bytes(&sk)), tr)
+                } else {
+                    let (r, tr) = world::keygen_sim::<variant::V1024>(seed, None, None);
+                    (r.map(|(sk, _)| <variant::V1024 as variant::Variant>::sk_to_bytes(&sk)), tr)
+                };
+                let skb = match r {
+                    Ok(b) => b,
+                    Err(_) => continue,
+                };
+                let k = reference::codec::sk_decode(reference::codec::params(n), &skb).expect("sk decodes");
+                let cands = reference::keygen::candidates(seed, n, tr.attempts as usize);
+                let ok = cands.last().map(|(f, g)| *f == k.f && *g == k.g).unwrap_or(false);
+                println!("seed {} attempts {} model agrees: {}", c, tr.attempts, ok);
+                if !ok {
+                    bad += 1;
+                }
+            }
+            if bad > 0 { 1 } else { 0 }
+        }
+        "candidate-roots" => {
+            // candidate-roots <n> <seed_hex> <count>: zeros of the first candidates' f among all roots
+            let n: usize = args.get(2).and_then(|s| s.parse().ok()).unwrap_or(512);
+            let seed: [u8; 32] = rng::unhex(&args[3]).and_then(|v| v.try_into().ok()).expect("seed hex");
+            let count: usize = args.get(4).and_then(|s| s.parse().ok()).unwrap_or(8);
+            let ntt = reference::field::Ntt::new(n);
+            let psi = reference::field::powq(1331, (4096 / (2 * n)) as u64);
+            for (i, (f, _g)) in reference::keygen::candidates(seed, n, count).iter().enumerate() {
+                let zeros: Vec<usize> = ntt.forward(f).iter().enumerate().filter(|(_, &x)| x == 0).map(|(k, _)| k).collect();
+                // exponent e with f(psi^e) = 0
+                let mut exps = Vec::new();
+                let mut r = psi;
+                for e in (1..2 * n).step_by(2) {
+                    if reference::keygen::eval(f, r) == 0 {
+                        exps.push(e);
+                    }
+                    r = r * psi % 12289 * psi % 12289;
+                }
+                println!("candidate {} zero slots (harness order) {:?} exponents of 1331^(4096/2n) {:?}", i, zeros, exps);
+            }
+            0
+        }
+        "mine-seeds" => {
+            let n: usize = args.get(2).and_then(|s| s.parse().ok()).unwrap_or(512);
+            let scan: u64 = args.get(3).and_then(|s| s.parse().ok()).unwrap_or(4000);
+            let t0 = std::time::Instant::now();
+            let v = world::mine_keygen_seeds(seed_from_env(), n, scan, 100, report::workers());
+            for (s, r) in &v {
+                println!("{} root {}", rng::hex(s), r);
+            }
+            println!("{} seeds among {} in {:.1}s", v.len(), scan, t0.elapsed().as_secs_f64());
+            0
+        }
         "scan-seeds" => {
             // scan-seeds <n> <from> <to>: counter seeds whose keygen takes a rare branch
             // (range rejection of a candidate, or more than 100 ntru_gen attempts)
